@@ -11,10 +11,6 @@ Theorem rewrite_correct_partial : forall en e, supported en e = true -> sem_duck
 Proof. exact rewrite_correct_partial_l. Qed.
 Print Assumptions rewrite_correct_partial.
 
-Theorem quarter_refuted : exists en e, sem_duck en (rewrite e) <> sem_sf en e.
-Proof. exact quarter_refuted_l. Qed.
-Print Assumptions quarter_refuted.
-
 Theorem dateadd_column_type_refuted : exists en e, sem_sf en e = Ok (VDate 18293) /\ sem_duck en (rewrite e) = Ok (VTs (18293 * day_us)).
 Proof. exact dateadd_column_type_refuted_l. Qed.
 Print Assumptions dateadd_column_type_refuted.
